@@ -135,6 +135,23 @@ class QueuedResource(Entity, ABC):
         self._driver.set_clock(clock)
         self._worker.set_clock(clock)
 
+    def capacity_changed(self) -> None:
+        """Tell the driver that ``has_capacity()`` may have turned true.
+
+        The driver looks at capacity when the queue notifies it and when work
+        completes. Call this when capacity appears for any other reason (a shift
+        starts, a concurrency limit is raised) so that waiting work is pulled.
+        Safe to call from anywhere while the simulation runs; a no-op otherwise.
+        """
+        from happysimulator.core.sim_future import _get_active_heap
+
+        heap = _get_active_heap()
+        if heap is None or self._clock is None:
+            return
+        poll = self._driver.poll_if_ready()
+        if poll is not None:
+            heap.push(poll)
+
     def handle_event(self, event: Event):
         """Enqueue incoming work and notify the driver when needed."""
 
